@@ -99,7 +99,7 @@ def plain_str(max_size=4, csi=True):
 
 OBS = st.one_of(st.just(0), st.just(0), st.integers(0, 0xFFFF), st.just(0xFFFF))
 PLAIN_BUILDS = ["chunks", "fmtstr", "names"]
-DERIVED_BUILDS = ["d_removed", "d_false", "d_slice", "d_concat", "d_copy", "d_mul"]
+DERIVED_BUILDS = ["d_removed", "d_false", "d_slice", "d_concat", "d_copy", "d_mul", "d_join", "d_splice", "d_split"]
 BUILDS = st.sampled_from(PLAIN_BUILDS + PLAIN_BUILDS + DERIVED_BUILDS)
 
 
